@@ -123,6 +123,7 @@ finding("P48", ["C15"], "open", "docstring whose section's last line is the end 
 finding("P49", ["C15"], "open", "numpydoc (and google after a Returns section) has no end-of-section notion: footer text after the section (also 'See Also\\n--------') is parsed as further parameters or absorbed into the return entry, in originals and in converted docstrings")
 finding("P50", ["C15"], "open", "ReST docstring with `:return:` followed by `:rtype:`: the splitter cuts the `:rtype:` line off the section and returns it as footer; converting such a docstring (to any style) appends a duplicate `:rtype:` line")
 finding("P51", ["C15"], "open", "header/args/footer split: the boundary between section and footer is misplaced by a few characters (numpydoc: the last description line or the return type's tail lands in the footer; with the unindented section as `current` the returned section is truncated); the three parts still tile the original exactly")
+finding("P56", ["C20"], "open", "exmod --blacklist <pkg>.<sub> is ignored for a top-level package (the path compared is built as '.sub', never the FQN): the black-listed sub-package is emitted; --whitelist <pkg>.<sub> emits nothing at all")
 finding("P26", ["C07"], "open", "doctrans drops comments inside a rewritten multi-line def header")
 finding("P27", ["C07"], "open", "doctrans turns a one-line `def f(a=1): return a` into invalid Python")
 finding("P28", ["C07"], "open", "doctrans does not recognise a raw docstring r\"\"\"...\"\"\": a second string is inserted")
@@ -226,6 +227,11 @@ W.append(('P36', "C19", {'in': 'argparse', 'names': ['Alpha', 'Beta'], 'irs': [{
 W.append(('P55', "C19", {'in': 'class', 'names': ['Alpha', 'Beta'], 'irs': [{'name': 'Foo', 'doc': 'Some summary.', 'params': [['a', {'typ': 'int', 'doc': 'the a', 'default': 5}], ['b', {'typ': 'Optional[str]', 'doc': 'the b'}]], 'kinds': ['?', '?'], 'returns': None}, {'name': 'Foo', 'doc': 'Some summary.', 'params': [['c', {'typ': "Literal['x', 'y']", 'doc': 'the c', 'default': 'x'}]], 'kinds': ['?'], 'returns': None}], 'parse': 'explicit', 'emit': 'sqlalchemy', 'tpl': '{name}', 'infer': True, 'prepend': 'import os\n', 'existing': False}))
 W.append(('P38', "C19", {'in': 'argparse', 'names': ['Alpha', 'Beta'], 'irs': [{'name': 'Foo', 'doc': 'Some summary.', 'params': [['a', {'typ': 'int', 'doc': 'the a', 'default': 5}], ['b', {'typ': 'Optional[str]', 'doc': 'the b'}]], 'kinds': ['?', '?'], 'returns': None}, {'name': 'Foo', 'doc': 'Some summary.', 'params': [['c', {'typ': "Literal['x', 'y']", 'doc': 'the c', 'default': 'x'}]], 'kinds': ['?'], 'returns': None}], 'parse': 'explicit', 'emit': 'json_schema', 'tpl': '{name}Config', 'infer': False, 'prepend': None, 'existing': False}))
 W.append(('P17d', "C19", {'in': 'class', 'names': ['Alpha', 'Beta'], 'irs': [{'name': 'Foo', 'doc': 'Some summary.', 'params': [['a', {'typ': 'int', 'doc': 'the a', 'default': 5}], ['b', {'typ': 'Optional[str]', 'doc': 'the b'}]], 'kinds': ['?', '?'], 'returns': None}, {'name': 'Foo', 'doc': 'Some summary.', 'params': [['c', {'typ': "Literal['x', 'y']", 'doc': 'the c', 'default': 'x'}]], 'kinds': ['?'], 'returns': None}], 'parse': 'explicit', 'emit': 'sqlalchemy', 'tpl': '{name}Config', 'infer': False, 'prepend': None, 'existing': False}))
+
+# ---- C20 witnesses
+_T = {"modules": {"mod_00": ["Alpha"], "sub0/mod_10": ["Beta"]}, "irs": {"Alpha": I([A5]), "Beta": I([A5])}, "levels": 2}
+W.append(("P56", "C20", {"tree": _T, "emit": "class", "recursive": True, "sqlsub": False, "list": "blacklist", "chosen": ["sub0"], "cells": [[False, "absent"]]}))
+W.append(("P18", "C20", {"tree": _T, "emit": "sqlalchemy_table", "recursive": True, "sqlsub": True, "list": "none", "chosen": [], "cells": [[True, "empty"], [True, "populated"], [True, "absent"]]}))
 
 
 def main():
